@@ -60,6 +60,9 @@ def protection : Loc → Protection
   | .Server_documents => .atomicCell
   | .Server_loader => .immutableAfterInit
   | .Server_payeeTemplatesCache => .atomicCell
+  -- numbering of the configuration refreshes: taken on the handler thread (nextRefresh),
+  -- compared by the refresh goroutines (isNewestRefresh), both under settingsMu
+  | .Server_refreshSeq => .guardedBy .Server_settingsMu
   | .Server_resolved => .atomicCell
   | .Server_rootURI => .immutableAfterInit
   | .Server_settings => .guardedBy .Server_settingsMu
@@ -205,10 +208,13 @@ def uncovered : List (Row Loc Lock) := accessTable.filter fun r => !covered r
 
 /-- The lock order the deadlock proof relies on: Workspace.mu may be held while Loader.mu is
     taken (Workspace.Initialize → Loader.Load), publishMu while docVerMu is taken
-    (publishIfCurrent → isCurrentDocVersion), never the other way round; settingsMu and the
-    token-cache mutex are leaf locks taken with nothing else held. -/
+    (publishIfCurrent → isCurrentDocVersion), refreshMu while settingsMu or Loader.mu is taken
+    (applyConfiguration → isNewestRefresh / getSettings / setSettings → SetLimits, reinitCLI),
+    never the other way round; settingsMu is an innermost lock (nothing is taken while it is
+    held), the token-cache mutex is taken with nothing else held. -/
 def lockRank : Lock → Nat
-  | .Server_settingsMu => 0
+  | .Server_refreshMu => 0
+  | .Server_settingsMu => 3
   | .semanticTokensCache_mu => 0
   | .Workspace_mu => 1
   | .Loader_mu => 2
